@@ -8,6 +8,7 @@ func init() {
 	vfHarnesses["VerifH_match_sound"] = VerifH_match_sound
 	vfHarnesses["VerifH_match_complete"] = VerifH_match_complete
 	vfHarnesses["VerifH_match_order"] = VerifH_match_order
+	vfHarnesses["VerifH_match_tokencap"] = VerifH_match_tokencap
 }
 
 type vfRule struct {
@@ -305,4 +306,30 @@ func VerifH_match_order() {
 			vfCheck(vfParamField(ps1[i]) == vfParamField(ps2[i]) && ps1[i].val.String() == ps2[i].val.String(), "captures depend on registration order")
 		}
 	}
+}
+
+// VerifH_match_tokencap (C09): paths at the lexer's 64-token cap (a long literal prefix plus a
+// symbolic tail) against tries with '**' captures and verbs: no panic, an answer within the budget.
+func VerifH_match_tokencap() {
+	in := schemaRoute()
+	out := newFakeMD("vf.Resp", strField("r"))
+	d0 := &fakeMethod{full: "vf.S.M0", in: in, out: out}
+	d1 := &fakeMethod{full: "vf.S.M1", in: in, out: out}
+	root := newPath()
+	if root.addRule(vfHTTPRule("GET", "/a/{f=**}"), d0, "/vf.S/M0") != nil || root.addRule(vfHTTPRule("GET", "/a/{g=a/**}:vv"), d1, "/vf.S/M1") != nil {
+		vfFail("setup rules rejected")
+	}
+	prefix := ""
+	segs := 29 + vfChoice(3)
+	for i := 0; i < segs; i++ {
+		prefix += "/a"
+	}
+	route := prefix + vfAsciiString(vfLen(vfBound(5, 6)))
+	m, ps, err := root.match(route, "GET")
+	if err != nil {
+		vfCover("rejected")
+		return
+	}
+	vfCheck(m != nil && len(ps) >= 1, "dispatched without a method or captures")
+	vfCover("dispatched")
 }
